@@ -12,7 +12,7 @@
 (*   <<"VERDICT", rid, "accept"|"reject", clause, detail, bitsConsumed>>   *)
 (* line; a rejected record never blocks the following ones.                *)
 (***************************************************************************)
-EXTENDS Decode, Json, IOUtils
+EXTENDS Decode, Crc24q, Json, IOUtils
 
 Tables  == TLCEval(JsonDeserialize(IOEnv.VERIF_TABLES))
 Records == TLCEval(JsonDeserialize(IOEnv.VERIF_RECORDS))
@@ -28,6 +28,13 @@ jvars == <<rid, learnt>>
 vars == <<dvars, jvars>>
 
 Rec == Records[rid]
+
+\* static parser (RTCMReader.parse): CRC test iff validate bit 0 is set, then
+\* the payload is the buffer minus 3 leading and 3 trailing bytes - nothing else
+\* (preamble, length field) is looked at
+PayloadOfRec(r) == IF r.via = "parse" THEN SubSeq(r.frame, 4, Len(r.frame) - 3) ELSE r.p
+StartOfRec(r) == IF r.via = "parse" /\ r.validate % 2 = 1 /\ Crc(r.frame) # 0 THEN "crcfail" ELSE "begin"
+JTerminal == Terminal \/ st = "crcfail"
 
 ---------------------------------------------------------------------------
 PrnMatch(cl, o) ==
@@ -96,7 +103,11 @@ Detail(obs, mode) ==
 
 Verdict ==
   LET r == Rec IN
-  IF st = "fail"
+  IF st = "crcfail"
+  THEN IF r.out = "raise" /\ r.cls = "RTCMParseError" THEN <<"accept", "CrcRejected", << >> >>
+       ELSE IF r.out = "raise" THEN <<"reject", IF r.lib THEN "WrongErrorClass" ELSE "ForeignException", <<r.cls>> >>
+       ELSE <<"reject", "BadCrcAccepted", <<Crc(r.frame)>> >>
+  ELSE IF st = "fail"
   THEN IF r.out = "raise" /\ r.lib THEN <<"accept", "Rejected", << >> >>
        ELSE IF r.out = "raise" THEN <<"reject", "ForeignException", <<r.cls>> >>
        ELSE <<"reject", "AcceptedButSpecFails", <<off, Len(bits), Len(attrs)>> >>
@@ -119,18 +130,19 @@ NewLabels ==
 
 Judge ==
   /\ rid <= Len(Records)
-  /\ Terminal
+  /\ JTerminal
   /\ LET v == Verdict IN
      /\ PrintT(<<"VERDICT", Rec.rid, v[1], v[2], v[3], off>>)
      /\ learnt' = IF v[1] = "accept" /\ st = "ok" /\ Rec.out = "msg" THEN NewLabels @@ learnt ELSE learnt
   /\ rid' = rid + 1
-  /\ IF rid + 1 <= Len(Records) THEN LoadNext(Records[rid + 1].p)
+  /\ IF rid + 1 <= Len(Records)
+     THEN LoadNextSt(PayloadOfRec(Records[rid + 1]), StartOfRec(Records[rid + 1]))
      ELSE UNCHANGED dvars
 
 JInit ==
   /\ rid = 1
   /\ learnt = << >>
-  /\ IF Len(Records) >= 1 THEN Load(Records[1].p) ELSE Load(<<0, 0>>)
+  /\ IF Len(Records) >= 1 THEN LoadSt(PayloadOfRec(Records[1]), StartOfRec(Records[1])) ELSE Load(<<0, 0>>)
 
 JNext == (rid <= Len(Records) /\ DecodeNext /\ UNCHANGED jvars) \/ Judge
 
